@@ -207,7 +207,7 @@ def run(index, tier="quick", seed=0) -> Result:
         if cand is None:
             res.bad("XREF", k, f"{DATA}/science1220869.json", f"{key} cites {src} but that file has no entry named {nm!r}")
         elif not (np.asarray(cand["vertices"]).shape == np.asarray(rec["vertices"]).shape
-                  and np.allclose(np.asarray(cand["vertices"], float), np.asarray(rec["vertices"], float), atol=1e-12, rtol=0)):
+                  and np.array_equal(np.asarray(cand["vertices"], float), np.asarray(rec["vertices"], float))):
             res.bad("XREF", k, f"{DATA}/science1220869.json", f"{key} ({nm}) differs from its cited source entry in {src}")
         else:
             res.ok("XREF", k)
